@@ -125,23 +125,26 @@ def run_round(w, tname, s, x, n, st=None):
 def run_reject(w, case):
     """quantum of another type / type without reference unit -> TypeError"""
     kind = case[0]
-    if kind == 'foreign':
-        _, s1, s2 = case
-        u1, u2 = w.units[s1], w.units[s2]
-        q, quantum = u1.qty_cls(5, u1), u2.qty_cls(1, u2)
-    else:
-        _, s1, s2 = case
-        u1, u2 = w.units[s1], w.units[s2]
-        q, quantum = u1.qty_cls(5, u1), u2.qty_cls(1, u2)
-    try:
-        r = q.quantize(quantum)
-    except TypeError:
-        return []
-    except Exception as exc:
-        return [(f'C13:reject:{kind}', f"(5 {s1}).quantize(1 {s2}) raised "
-                 f"{type(exc).__name__} instead of TypeError")]
-    return [(f'C13:reject:{kind}', f"(5 {s1}).quantize(1 {s2}) returned "
-             f"{r!r}")]
+    _, s1, s2 = case
+    u1, u2 = w.units[s1], w.units[s2]
+    out = []
+    for a in (5, 0, F(0), O.dec('D:-2.5')):
+        q, quantum = u1.qty_cls(a, u1), u2.qty_cls(1, u2)
+        for qname, qv in (('quantity', quantum), ('number', 1)):
+            if qname == 'number' and kind == 'noref':
+                continue
+            try:
+                r = q.quantize(qv)
+            except TypeError:
+                continue
+            except Exception as exc:
+                out.append((f'C13:reject:{kind}', f"({a} {s1}).quantize("
+                            f"{qname} 1 {s2}) raised {type(exc).__name__} "
+                            "instead of TypeError"))
+                continue
+            out.append((f'C13:reject:{kind}', f"({a} {s1}).quantize({qname} "
+                        f"1 {s2}) returned {r!r}"))
+    return out
 
 
 def part(p, ts, modes):
@@ -171,6 +174,10 @@ def part_round(p):
     st = Stats()
     w = World(catalogue=True)
     xs = [F(k, 8) for k in range(-40, 41)] + [F(k, 3) for k in range(-7, 8)]
+    # values whose rounding to an integer lands on a tie of a coarser step
+    xs += [F(299, 2), F(101, 2), F(449, 3), F(-299, 2), F(8346719, 10000),
+           F(29, 2), F(9, 2), F(1499, 10), F(2501, 2), F(-101, 2),
+           F(14999, 100), F(4999, 1000), F(24995, 10000)]
     xs += [F(12345, 1000), F(-12345, 1000), F(5, 1000), F(15, 1000),
            F(25, 1000), F(250), F(350), F(-250), F(1005, 1000),
            F(123456789, 100), F(1, 2000), F(3, 2000)]
